@@ -293,3 +293,27 @@ func requestIDKey(id interface{}) string {
 	}
 	return fmt.Sprintf("%v", id)
 }
+
+// marshalResponseOrError encodes a response message. When a success response cannot be encoded
+// (e.g. a result containing NaN) it encodes an internal-error response for the same request
+// instead, so that the caller still gets an answer.
+func marshalResponseOrError(resp interface{}) ([]byte, error) {
+	data, err := json.Marshal(resp)
+	if err == nil {
+		return data, nil
+	}
+	var id interface{}
+	switch r := resp.(type) {
+	case JSONRPCResponse:
+		id = r.ID
+	case *JSONRPCResponse:
+		if r == nil {
+			return nil, err
+		}
+		id = r.ID
+	default:
+		return nil, err
+	}
+	errResp := newJSONRPCErrorResponse(id, ErrCodeInternal, "failed to encode result: "+err.Error(), nil)
+	return json.Marshal(errResp)
+}
